@@ -98,6 +98,11 @@ TARGETS = [
     dict(name="wrath_decrypt_large_server_header", file="src/wrath_header/decrypt.rs", fn="decrypt_large_server_header", kind="method",
          fields=[("decrypt", "opaque"), ("header", ("arr", "u8"))], helpers=[], externs={"self.decrypt.apply": ("ext_apply", "self.decrypt")}, ret="N * N",
          opt_calls={"ServerHeader::from_large_array": ("tr_wrath_from_large_array", "hdr")}),
+    dict(name="wrath_read_and_decrypt_server_header", file="src/wrath_header/decrypt.rs", fn="read_and_decrypt_server_header", kind="method",
+         fields=[("decrypt", "opaque"), ("header", ("arr", "u8"))], helpers=[], io_params={"reader": "reader"}, ext_params=["ext_apply"], ret="hdr",
+         self_calls={"attempt_decrypt_server_header": ("tr_wrath_attempt_decrypt_server_header ext_apply", ["self.decrypt", "self.header"], "attempt"),
+                     "decrypt_large_server_header": ("tr_wrath_decrypt_large_server_header ext_apply", ["self.decrypt", "self.header"], "hdr")},
+         match_patterns={"WrathServerAttempt::Header": ("Some", ["hdr"]), "WrathServerAttempt::AdditionalByteRequired": ("None", [])}),
     dict(name="wrath_encrypt_server_header", file="src/wrath_header/encrypt.rs", fn="encrypt_server_header", kind="method",
          fields=[("encrypt", "opaque"), ("server_header", ("arr", "u8"))], helpers=[], free_helpers=["set_large_header"],
          externs={"self.encrypt": ("ext_apply", "self.encrypt")}, ret=("arr", "u8"), consts={"SERVER_HEADER_MINIMUM_LENGTH": ("wrath_server_header_min_length", "u8")}),
@@ -281,6 +286,8 @@ def method(t, src):
         extra = "".join(", " + n_ for n_ in ionames)
         if tail is None: return "Some (%s, tt%s)" % (st, extra)
         return "Some (%s, %s%s)" % (st, tail[0], extra)
+    g.fn_final = final
+    g.match_patterns = dict(t.get("match_patterns", {}))
     text = g.stmts(blk, final)
     def cty(ty): return "list N" if isinstance(ty, tuple) else ("ST" if ty == "opaque" else "N")
     tys = " ".join("(%s : %s)" % ("s_" + f, cty(ty)) for f, ty in t["fields"])
